@@ -2,7 +2,7 @@
    Values are Z (integers stand for themselves, other floats are opaque tokens), add = Z.add,
    veqb = Z.eqb. *)
 From Coq Require Import ZArith List Bool.
-From Verif Require Import Py Shape COO GCXS Judge SArr Convert.
+From Verif Require Import Py Shape COO GCXS Judge SArr Convert ScipyConv.
 Import ListNotations.
 Open Scope Z_scope.
 
@@ -169,6 +169,16 @@ Definition judge_make (c : mk_case) : Z :=
     let coords := map (fun rc => if axis =? 0 then [fst rc; snd rc] else [snd rc; fst rc]) (combine rows indices) in
     let valid := forallb (in_rangeb sh) coords && (length data =? length coords)%nat
                  && (length indices =? length data)%nat && hop_okb sh f in
+    (* same orientation (csr -> compressed axis 0, csc -> 1): also the scipy model of Model/ScipyConv.v
+       (has_canonical_format, sum_duplicates, _canonical_scipy's condition) against real scipy *)
+    let m := mkSCS (axis =? 1) sh data indices indptr in
+    let same := match f with
+                | FGcxs (Some [a]) => a =? axis
+                | FCsr => axis =? 0
+                | FCsc => axis =? 1
+                | _ => false end in
+    if same && sc_structb m && negb (sarr_eqb (SGcxs (gcxs_from_scipy Z.eqb Z.add 0 m)) o) then 1
+    else
     judge_model_vs (bind (coo_make_checked Z.eqb Z.add false true false sh coords data 0)
                          (fun x => convert Z.eqb Z.add f (RCoo x)))
                    valid o sh 0 (spec_flat sh (combine coords data) 0)
